@@ -48,7 +48,8 @@ TOTAL = {
     'core::clone::impls::<impl core::clone::Clone for u8>::clone',
     'core::clone::impls::<impl core::clone::Clone for usize>::clone',
     'core::cmp::Ord::max', 'core::cmp::Ord::min', 'core::cmp::Ordering::is_eq', 'core::cmp::Ordering::then_with',
-    'core::cmp::PartialEq::ne', 'core::cmp::impls::<impl core::cmp::Ord for u16>::cmp',
+    'core::cmp::PartialEq::ne', '<core::cmp::Ordering as core::cmp::PartialEq>::eq', '<core::cmp::Ordering as core::cmp::PartialEq>::ne',
+    'core::cmp::impls::<impl core::cmp::Ord for u16>::cmp',
     'core::cmp::impls::<impl core::cmp::Ord for usize>::cmp',
     'core::cmp::impls::<impl core::cmp::PartialEq for &A>::eq', 'core::cmp::impls::<impl core::cmp::PartialEq for &A>::ne',
     'core::cmp::impls::<impl core::cmp::PartialOrd for u8>::partial_cmp',
@@ -87,6 +88,16 @@ import re as _re
 TOTAL_RE = _re.compile(r'^core::cmp::impls::<impl core::cmp::(Ord|PartialOrd|PartialEq|Eq) for '
                        r'(u8|u16|u32|u64|u128|usize|i8|i16|i32|i64|i128|isize|bool|char)>::'
                        r'(cmp|partial_cmp|eq|ne|lt|le|gt|ge|max|min)$')
+
+# iterator adaptors of core over slices/ranges: constructing one is total, and advancing / consuming one only runs the
+# closures it was given (crate code, whose own panic sites are enumerated separately)
+TOTAL_ITER_RE = _re.compile(
+    r'^(core::iter::Iterator::(enumerate|filter|skip|take|map|rev|zip|chain|peekable|cloned|copied|by_ref|filter_map|'
+    r'take_while|skip_while|inspect|fuse|position|any|all|find|find_map|count|last|fold|for_each|next)'
+    r'|<core::(iter|slice)::(Enumerate|Filter|Skip|Take|Map|Rev|Zip|Chain|Cloned|Copied|FilterMap|TakeWhile|SkipWhile|'
+    r'Inspect|Fuse|Iter|IterMut) as core::iter::(Iterator|DoubleEndedIterator|ExactSizeIterator)>::'
+    r'(next|next_back|position|any|all|find|find_map|count|last|fold|for_each|len|size_hint|nth)'
+    r'|core::mem::drop)$')
 
 # third-party entry points that are documented to return Result for every input; their internals are outside
 # the crate (trusted: see DESIGN section 9)
@@ -168,7 +179,7 @@ AUDITED = {
 
 # arithmetic asserts discharged by a written argument; key = (function, 'assert', kind:operand origins)
 AUDITED_ASSERTS = {
-    ('member::Members::next', 'assert', 'Overflow(Add):arg2,self.cursor'):
+    ('member::Members::next', 'assert', 'Overflow(Add):<usize>,self.cursor'):
         'pos is an index into inner.iter().skip(cursor), so pos + cursor < inner.len() <= isize::MAX',
     ('member::Members::choose_members', 'assert', 'Overflow(Add):counter:usize,1'):
         'num_seen / num_chosen: usize counters starting at 0 and stepped by 1 at most once per element of self.inner '
@@ -195,10 +206,19 @@ AUDITED_ASSERTS = {
     ('broadcast::Broadcasts::fill_with_len_prefix', 'assert', 'Overflow(Add):len(pop(self.flip).some.data),2'):
         'a Vec length is <= isize::MAX, so + 2 cannot overflow usize',
     ('<codec::postcard_impl::PostcardCodec as codec::Codec>::decode_header', 'assert',
-     'Overflow(Sub):remaining(arg2),len(take_from_bytes(chunk(arg2)).ok.1)'):
+     'Overflow(Sub):remaining(<impl Buf>),len(take_from_bytes(chunk(<impl Buf>)).ok.1)'):
         'rest is the tail take_from_bytes returns for buf.chunk(), whose length equals remaining (debug-asserted), '
         'so rest.len() <= remaining',
     ('<codec::postcard_impl::PostcardCodec as codec::Codec>::decode_member', 'assert',
-     'Overflow(Sub):remaining(arg2),remaining(take_from_bytes(chunk(arg2)).ok.1)'):
+     'Overflow(Sub):remaining(<impl Buf>),len(take_from_bytes(chunk(<impl Buf>)).ok.1)'):
         'as decode_header',
 }
+
+
+# audited arithmetic asserts whose operand can be spelled in several ways: (owner, compiled pattern over the
+# descriptor, argument).  Used when no exact key of AUDITED_ASSERTS matches.
+AUDITED_ASSERT_PATTERNS = [
+    ('member::Members::next',
+     _re.compile(r'^Overflow\(Add\):.*skip\(iter\(deref\(self\.inner\)\),self\.cursor\).*,self\.cursor$'),
+     'an offset produced by enumerating / searching inner.iter().skip(cursor): offset + cursor < inner.len() <= isize::MAX'),
+]
